@@ -59,7 +59,7 @@ def run(ctx):
         seen = {shape_str(c) for c in single}
         big = [c for c in big if shape_str(c) not in seen]
         ctx.cov["generated"]["single_crash_cases_big_shapes"] = len(big)
-        cases = single + rng.sample(big, min(len(big), 300))
+        cases = single + rng.sample(big, min(len(big), 100))
         double = [c for c in f_double.result() if len(c["crashes"]) == 2]
     else:
         # one generator run: 12 shapes, every schedule of up to two crashes
@@ -71,7 +71,7 @@ def run(ctx):
         raise vlib.Undecided("generator produced only %d single-crash cases" % len(single))
     ctx.cov["generated"]["single_crash_cases"] = len(single)
     ctx.cov["generated"]["double_crash_cases"] = len(double)
-    cases += rng.sample(double, min(len(double), ctx.pick(50, 1000)))
+    cases += rng.sample(double, min(len(double), ctx.pick(50, 400)))
     nwit = 0
     for f in f_negs:
         sw, w = f.result()
